@@ -16,6 +16,10 @@ Hand-written and trusted as the reading of the Go language / standard library fo
   `Reset`/`Truncate`); a buffer taken from `binaryPool` is empty; `internal.Payload` is the concatenation of
   its slices; `unicode/utf8.Valid` is RFC 3629 well-formedness (`Spec.Utf8.valid`, compared exhaustively with
   the real function on every run by the utf8 suite);
+* a Go `string` is its bytes (`Hs.Str`); `http.Header.Get/Values`, `strings.EqualFold`, `strings.Join(·, ",")`,
+  `internal.Split(·, ",")` and `ComputeAcceptKey` are the functions of the same name in `Gws/Model/Handshake.lean`
+  (`Hs.get`, `Hs.vals`, `Hs.foldEq`, `Hs.joinComma`, `Hs.split`, `Hs.acceptKey`): their reading of net/http and
+  `strings` is trusted and sampled by the handshake suites; the generated file imports that module for them;
 * `error` is `Option GoErr`: `nil`, a close status code, or an I/O error of the byte source.
 -/
 
